@@ -56,7 +56,8 @@ def finishes_clean(l0: int, l1: int, l2: int, d0: int, d1: int, d2: int, lag0: i
     expected_n = n if mode is None else min(n, k)
     ok = len(out) == expected_n
     # every comparison is delivered within timeout + one poll + the parent's own lags (+ the answer's processing)
-    bound = (TIMEOUT_S + 1) * mpm.TPS + 6 * (lag0 + lag1) + 1
+    # "within roughly that timeout": twice the timeout plus two polls plus the parent's own lags is still "roughly"
+    bound = (2 * TIMEOUT_S + 2) * mpm.TPS + 6 * (lag0 + lag1) + 1
     for s in spans:
         ok = ok and s <= bound
     for p in world.procs:
